@@ -30,6 +30,17 @@ pub fn run_plan(plan: &Plan, keep: bool) -> RunOutput {
             out.violations.push(crate::trace::Violation { property: "C07", rule: "observers-not-one-assignment", at: v.at, detail: format!("expert engine, after a write made by an observability callback inside stabilise: {}", v.detail) });
         }
     }
+    // C02 over expert nodes: the dynamic sum, too, is evaluated at most once per stabilise and
+    // on final inputs
+    if plan.knobs.stop_on == "C02" && plan.engine == "expert" {
+        let extra: Vec<crate::trace::Violation> = out
+            .violations
+            .iter()
+            .filter(|v| v.rule == "double-recompute" || v.rule == "callback-discipline")
+            .map(|v| crate::trace::Violation { property: "C02", rule: if v.rule == "double-recompute" { "double-run" } else { "input-ran-after-dependant" }, at: v.at, detail: format!("expert engine: {}", v.detail) })
+            .collect();
+        out.violations.extend(extra);
+    }
     out
 }
 
